@@ -129,6 +129,11 @@ def _vm_goal(case, out):
         for _ in range(int(t.next())):
             h, f = t.next(), t.next()
             creds.append("(%s, mkCred %s)" % (h, " ".join("true" if c == "1" else "false" for c in f)))
+        ptable = []
+        for _ in range(int(t.next())):
+            hdr, sch, realm, service, scope = t.next(), t.next(), t.next(), t.next(), t.next()
+            sch = {"basic": "SchBasic", "bearer": "SchBearer"}.get(sch, "SchUnknown")
+            ptable.append("(%s, (%s, [(s_realm, %s); (s_service, %s); (s_scope, %s)]))" % (_cstr(hdr), sch, _cstr(realm), _cstr(service), _cstr(scope)))
         hist = []
         for _ in range(int(t.next())):
             h = t.next()
@@ -160,7 +165,7 @@ def _vm_goal(case, out):
                     else:
                         sends.append("POAuth %s %s %s %s %s" % (h, _cstr(realm), _cstr(service), _cstr(scopes), _csecret(last)))
             exp.append("([%s], %s)" % ("; ".join(sends), res))
-        return "proj_run (run_model %s %s [%s] [%s]) = [%s]" % (fl, oauth2, "; ".join(creds), "; ".join(hist), "; ".join(exp))
+        return "proj_run (run_model %s %s [%s] [%s] [%s]) = [%s]" % (fl, oauth2, "; ".join(creds), "; ".join(ptable), "; ".join(hist), "; ".join(exp))
     return None
 
 
